@@ -14,9 +14,11 @@ import (
 	"os"
 	"path/filepath"
 	"regexp"
+	"runtime"
 	"strconv"
 	"strings"
 	"sync"
+	"sync/atomic"
 	"time"
 
 	"github.com/go-logr/logr/funcr"
@@ -136,7 +138,7 @@ type sinkResult struct {
 }
 
 // parse examines the content of one sink. want(p, seq, stream) says whether the message belongs there.
-func parse(name, content string, sent map[string]bool, want func(stream string) bool) sinkResult {
+func parse(name, content string, sent map[string]bool, want func(p, seq int, stream string) bool, lenient bool) sinkResult {
 	r := sinkResult{Name: name}
 	found := map[string]int{}
 	for _, line := range strings.Split(content, "\n") {
@@ -160,9 +162,11 @@ func parse(name, content string, sent map[string]bool, want func(stream string) 
 		}
 	}
 	for k := range sent {
-		stream := k[strings.LastIndex(k, "|")+1:]
-		if !want(stream) {
-			if found[k] > 0 {
+		parts := strings.Split(k, "|")
+		pi, _ := strconv.Atoi(parts[0])
+		si, _ := strconv.Atoi(parts[1])
+		if !want(pi, si, parts[2]) {
+			if found[k] > 0 && !lenient {
 				r.Unwanted++
 			}
 			continue
@@ -191,14 +195,15 @@ type built struct {
 	l       logs.Loggers
 	collect func() []sinkSpec // after Close
 	drops   *dropCounter
-	extra   func(i int) // concurrent administrative call (source changes, appends)
+	extra   func(p, i int) // concurrent administrative call (source changes, appends) by producer p after its message i
 	cleanup func()
 }
 
 type sinkSpec struct {
 	name    string
 	content string
-	want    func(stream string) bool
+	want    func(p, seq int, stream string) bool
+	lenient bool // other messages may be in this sink too
 }
 
 type kind struct {
@@ -207,9 +212,9 @@ type kind struct {
 	build func(dir string, rng *rand.Rand) (*built, error)
 }
 
-func both(string) bool      { return true }
-func onlyErr(s string) bool { return s == "e" }
-func onlyOut(s string) bool { return s == "o" }
+func both(int, int, string) bool      { return true }
+func onlyErr(_, _ int, s string) bool { return s == "e" }
+func onlyOut(_, _ int, s string) bool { return s == "o" }
 
 func stringMember() (*logs.StringLoggers, error) { return logs.NewPlainStringLogger() }
 
@@ -246,7 +251,7 @@ func kinds() []kind {
 			if err != nil {
 				return nil, err
 			}
-			return &built{l: l, collect: func() []sinkSpec { return []sinkSpec{{name, s.String(), both}} }}, nil
+			return &built{l: l, collect: func() []sinkSpec { return []sinkSpec{{name, s.String(), both, false}} }}, nil
 		}}
 	}
 	ring := func(name string, size int, poll time.Duration, delay time.Duration, json bool) kind {
@@ -266,9 +271,9 @@ func kinds() []kind {
 			}
 			return &built{l: l, drops: dc, collect: func() []sinkSpec {
 				if json {
-					return []sinkSpec{{name, so.String(), both}}
+					return []sinkSpec{{name, so.String(), both, false}}
 				}
-				return []sinkSpec{{name + "/out", so.String(), onlyOut}, {name + "/err", se.String(), onlyErr}}
+				return []sinkSpec{{name + "/out", so.String(), onlyOut, false}, {name + "/err", se.String(), onlyErr, false}}
 			}}, nil
 		}}
 	}
@@ -279,7 +284,7 @@ func kinds() []kind {
 				return nil, err
 			}
 			content := ""
-			return &built{l: loggerWithPreClose{l, func() { content = l.GetLogContent() }}, collect: func() []sinkSpec { return []sinkSpec{{"string", content, both}} }}, nil
+			return &built{l: loggerWithPreClose{l, func() { content = l.GetLogContent() }}, collect: func() []sinkSpec { return []sinkSpec{{"string", content, both, false}} }}, nil
 		}},
 		{name: "plain-string", class: "lossless", build: func(dir string, rng *rand.Rand) (*built, error) {
 			l, err := logs.NewPlainStringLogger()
@@ -287,7 +292,7 @@ func kinds() []kind {
 				return nil, err
 			}
 			content := ""
-			return &built{l: loggerWithPreClose{l, func() { content = l.GetLogContent() }}, collect: func() []sinkSpec { return []sinkSpec{{"plain-string", content, both}} }}, nil
+			return &built{l: loggerWithPreClose{l, func() { content = l.GetLogContent() }}, collect: func() []sinkSpec { return []sinkSpec{{"plain-string", content, both, false}} }}, nil
 		}},
 		{name: "std", class: "lossless", build: func(dir string, rng *rand.Rand) (*built, error) {
 			restore, err := redirectStd()
@@ -301,7 +306,7 @@ func kinds() []kind {
 			}
 			return &built{l: l, collect: func() []sinkSpec {
 				o, e := restore()
-				return []sinkSpec{{"stdout", o, onlyOut}, {"stderr", e, onlyErr}}
+				return []sinkSpec{{"stdout", o, onlyOut, false}, {"stderr", e, onlyErr, false}}
 			}}, nil
 		}},
 		{name: "pipe", class: "lossless", build: func(dir string, rng *rand.Rand) (*built, error) {
@@ -316,7 +321,7 @@ func kinds() []kind {
 			}
 			return &built{l: l, collect: func() []sinkSpec {
 				o, e := restore()
-				return []sinkSpec{{"stdout", o, onlyOut}, {"stderr", e, onlyErr}}
+				return []sinkSpec{{"stdout", o, onlyOut, false}, {"stderr", e, onlyErr, false}}
 			}}, nil
 		}},
 		{name: "file-only", class: "lossless", build: func(dir string, rng *rand.Rand) (*built, error) {
@@ -327,7 +332,7 @@ func kinds() []kind {
 			}
 			return &built{l: l, collect: func() []sinkSpec {
 				b, _ := os.ReadFile(f)
-				return []sinkSpec{{"file", string(b), both}}
+				return []sinkSpec{{"file", string(b), both, false}}
 			}, cleanup: func() { _ = os.Remove(f) }}, nil
 		}},
 		fromSink("json", func(s *sink) (logs.Loggers, error) { return logs.NewJSONLogger(s, "c13", "source") }),
@@ -366,7 +371,7 @@ func kinds() []kind {
 				return nil, err
 			}
 			content := ""
-			return &built{l: loggerWithPreClose{l, func() { content = m.GetLogContent() }}, collect: func() []sinkSpec { return []sinkSpec{{"quiet", content, onlyErr}} }}, nil
+			return &built{l: loggerWithPreClose{l, func() { content = m.GetLogContent() }}, collect: func() []sinkSpec { return []sinkSpec{{"quiet", content, onlyErr, false}} }}, nil
 		}},
 		{name: "multiple", class: "lossless", build: func(dir string, rng *rand.Rand) (*built, error) { return composite(rng, true) }},
 		{name: "combined", class: "lossless", build: func(dir string, rng *rand.Rand) (*built, error) { return composite(rng, false) }},
@@ -382,7 +387,7 @@ func kinds() []kind {
 			}
 			added := false
 			var mu sync.Mutex
-			return &built{l: l, extra: func(i int) {
+			return &built{l: l, extra: func(_, i int) {
 				// a writer added while messages flow: it gets what comes after, the others lose nothing
 				mu.Lock()
 				if !added && i > 3 {
@@ -391,7 +396,7 @@ func kinds() []kind {
 				}
 				mu.Unlock()
 			}, collect: func() []sinkSpec {
-				return []sinkSpec{{"writer-a", a.String(), both}, {"writer-b", b.String(), both}}
+				return []sinkSpec{{"writer-a", a.String(), both, false}, {"writer-b", b.String(), both, false}}
 			}}, nil
 		}},
 		{name: "logr-from-loggers", class: "lossless", build: func(dir string, rng *rand.Rand) (*built, error) {
@@ -405,7 +410,7 @@ func kinds() []kind {
 				return nil, err
 			}
 			content := ""
-			return &built{l: loggerWithPreClose{l, func() { content = m.GetLogContent() }}, collect: func() []sinkSpec { return []sinkSpec{{"logr-from-loggers", content, both}} }}, nil
+			return &built{l: loggerWithPreClose{l, func() { content = m.GetLogContent() }}, collect: func() []sinkSpec { return []sinkSpec{{"logr-from-loggers", content, both, false}} }}, nil
 		}},
 		{name: "golang-std-from-loggers", class: "lossless", build: func(dir string, rng *rand.Rand) (*built, error) {
 			m, err := stringMember()
@@ -414,7 +419,7 @@ func kinds() []kind {
 			}
 			o, e := logs.NewGolangStdLoggerFromLoggers(m, false), logs.NewGolangStdLoggerFromLoggers(m, true)
 			content := ""
-			return &built{l: loggerWithPreClose{&stdPair{o, e, m}, func() { content = m.GetLogContent() }}, collect: func() []sinkSpec { return []sinkSpec{{"golang-std-from-loggers", content, both}} }}, nil
+			return &built{l: loggerWithPreClose{&stdPair{o, e, m}, func() { content = m.GetLogContent() }}, collect: func() []sinkSpec { return []sinkSpec{{"golang-std-from-loggers", content, both, false}} }}, nil
 		}},
 		{name: "writers-from-loggers", class: "lossless", build: func(dir string, rng *rand.Rand) (*built, error) {
 			m, err := stringMember()
@@ -431,7 +436,7 @@ func kinds() []kind {
 			}
 			g := &logs.GenericLoggers{Output: log.New(iw, "", 0), Error: log.New(ew, "", 0)}
 			content := ""
-			return &built{l: loggerWithPreClose{g, func() { content = m.GetLogContent() }}, collect: func() []sinkSpec { return []sinkSpec{{"writers-from-loggers", content, both}} }}, nil
+			return &built{l: loggerWithPreClose{g, func() { content = m.GetLogContent() }}, collect: func() []sinkSpec { return []sinkSpec{{"writers-from-loggers", content, both, false}} }}, nil
 		}},
 		ring("async-ring-large", 4096, 0, 0, false),
 		ring("async-ring-small-waiter", 4, 0, 200*time.Microsecond, false),
@@ -485,32 +490,63 @@ func composite(rng *rand.Rand, withSource bool) (*built, error) {
 	if err != nil {
 		return nil, err
 	}
-	late, err := stringMember()
-	if err != nil {
-		return nil, err
+	// members appended while messages flow, by several producers at once: a member whose Append has returned gets
+	// everything its appender logs afterwards
+	const appenders = 8
+	late := make([]*logs.StringLoggers, appenders)
+	for i := range late {
+		if late[i], err = stringMember(); err != nil {
+			return nil, err
+		}
 	}
+	var arrived atomic.Int32
+	appendedAt := make([]int, appenders) // sequence number after which producer p appended late[p] (0 = never)
 	var mu sync.Mutex
-	added := false
 	contents := make([]string, n)
+	lateContents := make([]string, appenders)
 	return &built{l: loggerWithPreClose{l, func() {
 		for i, m := range members {
 			contents[i] = m.GetLogContent()
 		}
-	}}, extra: func(i int) {
-		mu.Lock()
-		if !added && i > 3 {
-			added = true
-			_ = l.Append(late)
+		for i, m := range late {
+			lateContents[i] = m.GetLogContent()
 		}
-		mu.Unlock()
+	}}, extra: func(p, i int) {
+		if p < appenders && i == 5 {
+			// rendezvous (best effort, 3 ms): the appends of several producers overlap
+			arrived.Add(1)
+			for t := time.Now(); arrived.Load() < 2 && time.Since(t) < 3*time.Millisecond; {
+				runtime.Gosched()
+			}
+			if err := l.Append(slowMember{late[p]}); err == nil {
+				mu.Lock()
+				appendedAt[p] = i
+				mu.Unlock()
+			}
+		}
 		_ = l.SetLogSource(fmt.Sprintf("source-%d", i%3))
 	}, collect: func() []sinkSpec {
 		var out []sinkSpec
 		for i := range members {
-			out = append(out, sinkSpec{fmt.Sprintf("member-%d", i), contents[i], both})
+			out = append(out, sinkSpec{fmt.Sprintf("member-%d", i), contents[i], both, false})
+		}
+		for q := range late {
+			q := q
+			if appendedAt[q] == 0 {
+				continue
+			}
+			out = append(out, sinkSpec{fmt.Sprintf("appended-by-%d", q), lateContents[q], func(p, seq int, _ string) bool { return p == q && seq > appendedAt[q] }, true})
 		}
 		return out
 	}}, nil
+}
+
+// slowMember takes its time to accept its logger source, as a member backed by a remote service would.
+type slowMember struct{ *logs.StringLoggers }
+
+func (s slowMember) SetLoggerSource(src string) error {
+	time.Sleep(300 * time.Microsecond)
+	return s.StringLoggers.SetLoggerSource(src)
 }
 
 // ---- one run --------------------------------------------------------------------------------------
@@ -564,7 +600,7 @@ func oneRun(k kind, dir string, producers, per int, admin bool, seed int64) (run
 					b.l.LogError(m)
 				}
 				if admin && b.extra != nil && i%5 == 0 {
-					b.extra(i)
+					b.extra(p, i)
 				}
 				if k.class == "ring" && r.Intn(4) == 0 {
 					time.Sleep(time.Duration(r.Intn(300)) * time.Microsecond)
@@ -583,7 +619,7 @@ func oneRun(k kind, dir string, producers, per int, admin bool, seed int64) (run
 	}
 	ev.Sent = len(sent)
 	for _, s := range b.collect() {
-		ev.Sinks = append(ev.Sinks, parse(s.name, s.content, sent, s.want))
+		ev.Sinks = append(ev.Sinks, parse(s.name, s.content, sent, s.want, s.lenient))
 	}
 	if b.drops != nil {
 		b.drops.mu.Lock()
